@@ -148,7 +148,7 @@ def run(rep, tier):
         rep.ob(rc, "opc=%#04x" % v, not text_bad, "rendered text of opcode %#04x" % v,
                expected="mnemonic followed by the instruction's own operands in the assembler's syntax", found=sorted(set(text_bad))[:3] or "denotes the fields")
 
-    rd = rep.rule("R15.d", "panic inventory of to_insn_vec under the stated precondition", floor=30)
+    rd = rep.rule("R15.d", "panic inventory of to_insn_vec under the stated precondition", floor=15)
     inv = cx.inventory()
     sites, reach = inv.run([root])
     rep.analysed(*sorted(reach))
